@@ -11,19 +11,19 @@ open TH
 /-- (a) whitespace inside a header name or between the name and the colon ⇒ the line is not a header. -/
 theorem ws_in_name_rejected (line : Bytes)
     (h : ((splitFirst 58 (trimEnd line)).1.any isWs) = true) : parseHeaderLine line = none := by
-  sorry
+  exact parseHeaderLine_ws_in_name line h
 
 /-- concrete forms of (a): `name SP* ":"`, `na me:` — for any name, any whitespace byte. -/
 theorem ws_before_colon_rejected (name value : Bytes) (w : Nat) (hw : isWs w = true)
     (hn : name.contains 58 = false) :
     parseHeaderLine (name ++ [w] ++ [58] ++ value) = none := by
-  sorry
+  exact parseHeaderLine_ws_before_colon name value w hw hn
 
 /-- (b) a header line that begins with whitespace (obsolete line folding) ⇒ not a header,
     whatever follows — in particular ` Transfer-Encoding: chunked` and ` Content-Length: 5`. -/
 theorem leading_ws_rejected (w : Nat) (l : Bytes) (hw : isWs w = true) :
     parseHeaderLine (w :: l) = none := by
-  sorry
+  exact parseHeaderLine_leading_ws w l hw
 
 /-- (c) a Content-Length that is not `1*DIGIT` representable in 64 bits — empty, signed,
     non-digit, mixed, list, overflowing — on *any* Content-Length header of the request, with or
@@ -32,18 +32,18 @@ theorem bad_content_length_rejected (hs : List Header) (h : Header)
     (hm : h ∈ hs) (hn : h.is b!"Content-Length" = true)
     (hv : strictContentLength h.value = none) :
     framingOf hs = .error .badContentLength := by
-  sorry
+  exact framingOf_bad_content_length hs h hm hn hv
 
 /-- `strictContentLength` accepts exactly non-empty digit strings whose value fits in usize. -/
 theorem strict_content_length_iff (v : Bytes) (n : Nat) :
     strictContentLength v = some n ↔
       (v ≠ [] ∧ (∀ b ∈ v, 48 ≤ b ∧ b ≤ 57) ∧ ofDec v = some n ∧ n ≤ usizeMax) := by
-  sorry
+  exact strictContentLength_iff v n
 
 /-- a sign, a space, a comma, a letter, a dot anywhere ⇒ rejected. -/
 theorem non_digit_rejected (v : Bytes) (b : Nat) (hb : b ∈ v) (hd : b < 48 ∨ 57 < b) :
     strictContentLength v = none := by
-  sorry
+  exact strictContentLength_non_digit v b hb hd
 
 /-- Outcome in a pipeline, classes (a) and (b): the head reader fails with `wrongHeader`, hence
     (C10.bad_header_outcome) 400 + close, request not delivered, nothing after the head parsed.
@@ -55,7 +55,7 @@ theorem rejected_line_fails_head (fuel : Nat) (ver : Version) (good : List Bytes
     (hbad : bad ≠ [] ∧ (∀ b ∈ bad, b ≠ 10 ∧ b < 128) ∧ parseHeaderLine bad = none)
     (hfuel : good.length < fuel) :
     readHeaders fuel ver ((good.map (· ++ crlf)).flatten ++ bad ++ crlf ++ rest) fin = .error (.wrongHeader ver) := by
-  sorry
+  exact readHeaders_rejected_line ver bad rest fin hbad good fuel hgood hfuel
 
 /-- Outcome in a pipeline, class (c): 400 + close, not delivered, and — the smuggling itself —
     no byte after the offending head is interpreted as a request. -/
@@ -66,7 +66,7 @@ theorem bad_content_length_outcome (fuel idx : Nat) (s : St) (bs : Bytes) (fin :
     let t := runLoop (fuel + 1) idx s bs fin script
     t.delivered = s.delivered ∧ t.statuses = s.statuses ++ [400] ∧ t.ending = .closed ∧
       t.out = s.out ++ printError 400 h.version false := by
-  sorry
+  simp [runLoop, hh, hf, St.emit, St.finish]
 
 example : (Conn.run b!"POST / HTTP/1.1\r\nContent-Length: 5x\r\n\r\nGET /smuggled HTTP/1.1\r\n\r\n" .eof
     (fun _ => ⟨0, 0, 1, .drop⟩)).statuses = [400] := by decide
